@@ -63,4 +63,37 @@ instance (a b : EData) : Decidable (SameData a b) := by unfold SameData; infer_i
 
 instance (σ : Nat → Nat) (t' t : Entry) : Decidable (SameTop σ t' t) := by unfold SameTop; infer_instance
 
+
+/-! ### `LoopsRelatedCore` as a decidable check -/
+open Goyang.Lemmas.Tree Goyang.Lemmas.IncludeAugCompose Goyang.Lemmas.IncludeAugIO
+
+/-- Both trees exist and the first is `SameTop σ` the second. -/
+def treesSameTop (σ : Nat → Nat) : Option Entry → Option Entry → Prop
+  | some tu, some t => SameTop σ tu t
+  | _, _ => False
+
+instance (σ : Nat → Nat) (a b : Option Entry) : Decidable (treesSameTop σ a b) := by
+  cases a <;> cases b <;> unfold treesSameTop <;> infer_instance
+
+/-- `LoopsRelatedCore` in decidable form (the pending table instead of `pendingOf`, the two trees by `match`). -/
+def CoreCheck (s : Split) (R R' : Registry) (opts : Opts) (plug plug' : Plug) : Prop :=
+  AugmentReport.allErrs (loopU R R' opts plug').forest = [] ∧ (∀ p ∈ (loopU R R' opts plug').pending, p.2 = []) ∧
+  treesSameTop s.σ ((loopU R R' opts plug').forest.tree? s.m.seq) ((afterLoop R opts plug).2.forest.tree? s.m.seq)
+
+instance (s : Split) (R R' : Registry) (opts : Opts) (plug plug' : Plug) : Decidable (CoreCheck s R R' opts plug plug') := by
+  unfold CoreCheck; infer_instance
+
+theorem core_of_check {s : Split} {R R' : Registry} {opts : Opts} {plug plug' : Plug}
+    (h : CoreCheck s R R' opts plug plug') : LoopsRelatedCore s R R' opts plug plug' := by
+  obtain ⟨h1, h2, h3⟩ := h
+  refine ⟨h1, fun id => IncludeNoAug.pendingOf_nil _ h2 id, ?_⟩
+  cases hu : (loopU R R' opts plug').forest.tree? s.m.seq with
+  | none => rw [hu] at h3; cases h3
+  | some tu =>
+    cases ht : (afterLoop R opts plug).2.forest.tree? s.m.seq with
+    | none => rw [hu, ht] at h3; cases h3
+    | some t =>
+      rw [hu, ht] at h3
+      exact ⟨t, tu, rfl, rfl, h3⟩
+
 end Goyang.Lemmas.IncludeAugDec
